@@ -8,7 +8,7 @@ CHECKS = {
  "C05": ("differential runtime monitor: gokrb5 vs independent RFC reference (both directions), enumerated inputs",
          "exploration",
          "Every (etype, plaintext length 0..130, usage, key) case of the enumerated grid (thorough: 0..300 and the neighbours of 512..65536) is encrypted by gokrb5 and decrypted by an independent RFC 3961/3962/8009/4757 implementation and vice versa; ciphertext length formula and confounder freshness are asserted on every case; one ciphertext buffer is presented three times (right usage, another usage, right usage); a key usage sweep covers every usage number 1..4095 (thorough: 1..65535 plus 100 000 seeded 32-bit numbers) per etype. Held means: no disagreement on the enumerated grid, not a proof for all keys/contents.",
-         "Trusts ref/kcrypto (written from the RFC text, self-tested against the RFC vectors at every run; cross-checked against the JDK's sun.security.krb5 implementation by setup when a JDK is present). A failing random source cannot be injected: with go >= 1.24 crypto/rand.Read never returns an error.",
+         "Trusts ref/kcrypto (written from the RFC text, self-tested against the RFC vectors at every run; cross-checked against the JDK's sun.security.krb5 implementation by setup when a JDK is present). Fault injection at the random source (a rand.Reader failing after 0/1/7/15 bytes: error or still-different ciphertexts) runs in a separate test binary built with the repository's default go (<= 1.23, /verif/harness123), because since go 1.24 crypto/rand.Read cannot fail; where the default go is newer that part reports itself not applicable.",
          "5.C05"),
  "C06": ("runtime monitor by construction: non-identity transformations of reference ciphertexts must all be rejected",
          "exploration",
